@@ -1139,7 +1139,9 @@ func (g *GoFakeS3) ensureBucketExists(bucket string) error {
 		if err := ValidateBucketName(bucket); err != nil {
 			return err
 		}
-		if err := g.storage.CreateBucket(bucket); err != nil {
+		// Another request may have created it since BucketExists answered; that
+		// is as good as having created it here:
+		if err := g.storage.CreateBucket(bucket); err != nil && !IsAlreadyExists(err) {
 			g.log.Print(LogErr, "autobucket create failed:", err)
 			return ResourceError(ErrNoSuchBucket, bucket)
 		}
